@@ -202,6 +202,30 @@ def noncanonical_user(m):
     return False
 
 
+def duplicated_helpers(m):
+    """KF-C20-2 static predicate: the same rule is used with a repetition operator
+    through references whose path-qualified names differ, so parglare creates two
+    equivalent helper rules (named after the reference, not the rule)."""
+    prefix = {}
+    for (f, l), q in m["fqn"].items():
+        prefix[f] = q.rsplit(".", 1)[0] if "." in q else ""
+    rules = dict(m["rules"])
+    if m["override"]:
+        rules[m["override"][0]] = m["override"][1]
+    names = {}
+    for (f, l), alts in rules.items():
+        if f not in prefix:
+            continue
+        owner = "root" if (m["override"] and (f, l) == m["override"][0]) else f
+        for alt in alts:
+            for x in alt:
+                if x and x[0] == "n" and x[3]:
+                    kind = "opt" if x[3] == "?" else "1"
+                    q = (prefix[owner] + "." if prefix[owner] else "") + x[2]
+                    names.setdefault((x[1], kind), set()).add(q)
+    return any(len(v) > 1 for v in names.values())
+
+
 def alt_text(alt):
     if not alt:
         return "EMPTY"
@@ -329,7 +353,10 @@ def one(ctx):
         ctx.count({"alias": "with_alias", "override": "with_override", "nested": "with_nested_reference", "rep": "with_repetition", "empty": "with_explicit_empty", "subdirs": "with_subdirectories"}[ft])
     if (lr is None) != (flr is None):
         ctx.case((str(texts), "lr-build"), True)
-        ctx.violation("lr-construction-differs", case0, "Parser() on the modular grammar %s, on the flattened grammar %s" % ("constructs" if lr else "has conflicts", "constructs" if flr else "has conflicts"), known=kf)
+        kf2 = kf
+        if kf2 is None and lr is None and flr is not None and duplicated_helpers(m):
+            kf2 = "KF-C20-2"
+        ctx.violation("lr-construction-differs", case0, "Parser() on the modular grammar %s, on the flattened grammar %s" % ("constructs" if lr else "has conflicts", "constructs" if flr else "has conflicts"), known=kf2)
         lr = flr = None
     # --- names: each file's rules once, under the first import path ----------------
     if not m["feats"] & {"rep"}:
